@@ -1,0 +1,23 @@
+// Copyright (c) The Thanos Community Authors.
+// Licensed under the Apache License 2.0.
+
+//go:build verif
+
+package execution
+
+import (
+	"github.com/prometheus/prometheus/promql/parser"
+
+	"github.com/thanos-community/promql-engine/execution/model"
+	"github.com/thanos-community/promql-engine/query"
+)
+
+// VerifWrap, when set, is applied to every operator newOperator builds (verification builds only).
+var VerifWrap func(op model.VectorOperator, expr parser.Expr, opts *query.Options) model.VectorOperator
+
+func verifWrap(op model.VectorOperator, err error, expr parser.Expr, opts *query.Options) (model.VectorOperator, error) {
+	if err != nil || op == nil || VerifWrap == nil {
+		return op, err
+	}
+	return VerifWrap(op, expr, opts), nil
+}
